@@ -1,5 +1,4 @@
 /-- translated from the source text of `fieldcompare/predicates/_predicates.py: _reshape` -/
--- v0 = arr1, v1 = arr2, v2 = dim1, v3 = dim2
 def c01ReshapeSrc : Fc.PyLite.Fn := {
   name := "_reshape"
   params := ["v0", "v1"]
